@@ -6,4 +6,7 @@ void pv_assert_fail(const char* expr, const char* file, int line) __attribute__(
 #else
 #define assert(e) ((e) ? (void)0 : pv_assert_fail(#e, __FILE__, __LINE__))
 #endif
+#ifndef static_assert
+#define static_assert _Static_assert
+#endif
 #endif
